@@ -55,6 +55,10 @@ def run(out, tier, seed):
         for kind in ("cycle_head", "cycle_mid", "no_rest", "two_rest", "no_first"):
             evs = [{"op": "new", "items": st}, {"op": "corrupt", "kind": kind}] + READS(len(st), members)
             jobs.append({"cfg": {"vocab": "plain"}, "events": evs})
+    # += with nothing to add: on an empty list, after clear, on a non-empty list
+    for pre in ([], [{"op": "clear"}], [{"op": "append", "x": "m1"}, {"op": "delitem", "i": 0}]):
+        for st in ([], ["m1"], ["z", "m1"]):
+            jobs.append({"cfg": {"vocab": "falsy", "head": "bnode", "sibling": False}, "events": [{"op": "new", "items": st, "how": "ctor"}] + pre + [{"op": "iadd", "xs": []}] + READS(len(st) + 1, members) + [{"op": "append", "x": "z"}] + READS(2, members)})
     # negative indexes count from the end, as for a Python list: reads, writes and deletions at -1, -2, -len, -len-1
     for st in starts[1:]:
         n = len(st)
